@@ -452,7 +452,7 @@ func C16(tier Tier) int {
 			map[string]interface{}{"sequence": []string{"S2", "S2[ESDTBurn=0]"}, "in_force": "S2", "then": "each of the 15 priced functions executed in all its sender-side classes, charge compared with the closed form"},
 			map[string]interface{}{"class": "MultiESDTNFTTransfer/cross-shard-2-mixed", "closed_form": "2*ESDTNFTMultiTransfer + DataCopyPerByte*|payload of (S,1)|"},
 		},
-		"explanation": fmt.Sprintf("all sequences of <= %d schedule changes over an alphabet of 6 accepted schedules (three with pairwise distinct primes, distinct across schedules, and three that differ from those in one section only) and %d rejected ones, applied through the real factory.GasScheduleChange; the model state is the schedule in force; after every sequence each priced function is executed on the real code and its charge compared with the closed form under the schedule in force", maxLen, rejected),
+		"explanation": fmt.Sprintf("all sequences of <= %d schedule changes over an alphabet of %d accepted schedules (three with pairwise distinct primes, three that differ from those in one section only, a flat schedule and its 22 single-field deviations, three that carry unknown entries) and %d rejected ones, applied through the real factory.GasScheduleChange in six variants (plain; functions inactive until after the changes; all / the first change before the container is created; two functions replaced by instances of another factory and the schedule in force delivered again; direct delivery in a struct that is overwritten afterwards); the model state is the schedule in force; after every sequence each of the %d priced classes is executed on the real code and its charge compared with the closed form under the schedule in force", maxLen, len(alphabet)-rejected, rejected, len(classes)),
 	}
 	return Finish(o)
 }
